@@ -80,6 +80,14 @@ func (w *arrivalWindow) Phi(timestamp time.Time) float64 {
 
 func (w *arrivalWindow) Add(timestamp time.Time) {
 	if w.lastTimestamp.After(time.Time{}) {
+		if timestamp.Before(w.lastTimestamp) {
+			// Timestamps are taken before the detector mutex is acquired, so an
+			// arrival may be added after a later arrival (or the placeholder
+			// window of a liveness check) was recorded. Adding it would record
+			// a negative interval, which can make the mean non-positive and
+			// Phi panic, so discard the out of order arrival.
+			return
+		}
 		w.intervals.Add(timestamp.Sub(w.lastTimestamp).Nanoseconds())
 	} else {
 		// If this is the first interval, use a high interval to avoid false
